@@ -54,6 +54,56 @@ def classes(claripy):
     return g["PlainAnn"]
 
 
+_IDH = {"n": 0, "salt": None, "map": None, "queue": [], "trace": None}
+
+
+def install_identity_hash_seam(claripy, salt):
+    """The structural hash of a node takes an annotation without __hash__ through Python's identity hash - the object's
+    ADDRESS.  Addresses of dead objects are reused by the allocator, so a pickled hash can collide with the hash of a
+    different live node by accident of heap layout: a source of nondeterminism (observed: one run in ~1000 of this phase
+    reported 'unpickled-expression-differs' and did not replay).  Seam: `_arg_serialize` looks `hash` up in its module's
+    globals, so the simulator supplies one that gives every identity-hashed annotation object a serial number that is
+    unique per (process, object) and never reused; everything else goes to the builtin.  claripy's code path (hash(arg)
+    for an annotation without a content hash) is unchanged."""
+    import builtins
+    import weakref
+
+    from .rng import mix64
+
+    PA = classes(claripy)
+    st = _IDH
+    if st["map"] is None:
+        st["map"] = weakref.WeakKeyDictionary()
+        st["salt"] = salt
+
+    def sim_hash(o):
+        if type(o) is PA:
+            s = st["map"].get(o)
+            if s is None:
+                if st["queue"]:
+                    # injected ADDRESS REUSE: the new object gets the "address" of a dead one (what the allocator does
+                    # all the time with freed memory); only ever used for serials whose objects are dead
+                    s = st["queue"].pop(0)
+                else:
+                    st["n"] += 1
+                    s = mix64(st["salt"] ^ st["n"]) & ((1 << 61) - 2)
+                st["map"][o] = s
+                if st["trace"] is not None:
+                    st["trace"].append(s)
+            return s
+        return builtins.hash(o)
+
+    claripy.ast.base.hash = sim_hash
+
+
+def flip_plain(sp):
+    if isinstance(sp, list):
+        if sp and sp[0] == "plain_ann":
+            return ["plain_ann", 3 - sp[1] if sp[1] in (1, 2) else 1, flip_plain(sp[2])]
+        return [flip_plain(x) for x in sp]
+    return sp
+
+
 def has_plain(sp):
     if isinstance(sp, list):
         if sp and sp[0] == "plain_ann":
@@ -243,6 +293,7 @@ def generate(prop, seed, idx, opts):
     ops.append({"op": "ship"})
     cfg = {"child_hashseed": r.choice([0, 1, 2, 3, 99, 31337, 4242]), "proto": r.choice([2, 4, 5]), "pin": r.below(len(PINS)),
            "prelive_first": r.chance(50), "mode": "same" if r.chance(50) else "fresh"}
+    cfg["reuse_identity"] = cfg["mode"] == "same" and r.chance(60)
     return {"property": prop, "engine": "history", "kind": "exprfresh", "origin_seed": seed, "run_index": idx,
             "profile": "C18expr", "config": cfg, "ops": ops}
 
@@ -252,6 +303,7 @@ def execute(rec):
     import claripy
 
     classes(claripy)
+    install_identity_hash_seam(claripy, 1 << 44)
     for b in (claripy.backends.z3, claripy.backends.concrete, claripy.backends.vsa):
         b.downsize()
     gc.collect()
@@ -268,13 +320,16 @@ def execute(rec):
             stats["ops"] += 1
             if op["op"] != "build":
                 continue
+            _IDH["trace"] = []
             try:
                 a = build(op["spec"], claripy)
             except claripy.errors.ClaripyError:
                 continue
+            finally:
+                serials, _IDH["trace"] = _IDH["trace"], None
             objs.append(a)
             items.append({"i": i, "spec": op["spec"], "prelive": bool(op.get("prelive")), "deep": deep(a, claripy, memo),
-                          "value": value_of(claripy, a, op["spec"], pin)})
+                          "value": value_of(claripy, a, op["spec"], pin), "serials": serials})
         if rec["ops"] and rec["ops"][-1]["op"] == "ship" and objs:
             try:
                 blob = pickle.dumps(objs, cfg.get("proto", 4))
@@ -288,7 +343,23 @@ def execute(rec):
                 for b in (claripy.backends.z3, claripy.backends.concrete, claripy.backends.vsa):
                     b.downsize()
                 gc.collect()
+                decoys = []
+                if cfg.get("reuse_identity"):
+                    # fault: address reuse.  For every expression that carried identity-hashed annotations, the same
+                    # expression with DIFFERENT annotation contents is built now, and its new annotation objects get the
+                    # addresses (serials) of the dead ones - so it has the structural hash the blob remembers.
+                    for it in items:
+                        if it["serials"] and has_plain(it["spec"]):
+                            _IDH["queue"] = list(it["serials"])
+                            try:
+                                decoys.append(build(flip_plain(it["spec"]), claripy))
+                            except claripy.errors.ClaripyError:
+                                pass
+                            finally:
+                                _IDH["queue"] = []
+                    stats["address_reuse_decoys"] = len(decoys)
                 res = check_unpickled(claripy, items, blob, pin, cfg.get("prelive_first", False), cfg.get("proto", 4))
+                decoys = None
                 stats.update(restarts=1, exprs_shipped=len(items), queries=res.get("checked", 0),
                              values_compared=res.get("values_compared", 0), prelive=res.get("prelive", 0))
                 if res.get("violation"):
@@ -345,6 +416,8 @@ def execute(rec):
     out["stats"] = stats
     out["fired"] = []
     out["cov"] = {"expr_same_process_runs" if cfg.get("mode") == "same" else "expr_cross_process_runs": 1}
+    if stats.get("address_reuse_decoys"):
+        out["cov"]["address_reuse_injected_runs"] = 1
     out["nontrivial"] = stats["exprs_shipped"] >= 3
     out["handles"] = []
     return out
@@ -431,6 +504,7 @@ def child_main():
     import claripy
 
     classes(claripy)
+    install_identity_hash_seam(claripy, 2 << 44)
     res = check_unpickled(claripy, req["items"], base64.b64decode(req["blob"]), PINS[req.get("pin", 0)],
                           req.get("prelive_first", True), req.get("proto", 4))
     print(json.dumps(res))
